@@ -296,8 +296,14 @@ class Ctx:
         e.update({"VERIF_SEED": str(self.seed), "VERIF_TIER": self.tier, "VERIF_OUT": self.work})
         if env:
             e.update(env)
+        cover = []
+        if os.environ.get("VERIF_COVER"):
+            # analysis aid (tools/coverage.sh), never set by a registered command: statement coverage of the package under test
+            os.makedirs(os.environ["VERIF_COVER"], exist_ok=True)
+            n = len([f for f in os.listdir(os.environ["VERIF_COVER"]) if f.startswith(self.pid + ".")])
+            cover = ["-coverprofile", os.path.join(os.environ["VERIF_COVER"], "%s.%d.out" % (self.pid, n)), "-coverpkg", pkg]
         cmd = ["go", "test", "-tags", "verif", "-vet=off", "-count=1", "-overlay", overlay,
-               "-run", run, "-timeout", "%ds" % timeout] + (["-race"] if race else []) + list(extra) + [pkg]
+               "-run", run, "-timeout", "%ds" % timeout] + (["-race"] if race else []) + cover + list(extra) + [pkg]
         rc, out, dt = sh(cmd, cwd=os.path.join(REPO, module), env=e, timeout=timeout + 60)
         open(os.path.join(self.work, "gotest.log"), "a").write("$ %s\n%s\n" % (" ".join(cmd), out))
         self.log("go test %s %s -> rc=%d (%.1fs)" % (pkg, run, rc, dt))
